@@ -575,6 +575,7 @@ def check_positive(ctx, model_ok):
         ctx.notes['oracle_evaluations'] = ctx.notes.get('oracle_evaluations', 0) + len(before)
         if problems:
             n_bad += 1
+        if problems and n_bad <= 8:
             ctx.violation('impl-violation', {'op': 'make_elements_positive', 'mesh': mesh_of(m),
                                              'inverted': m['meta']['inverted']},
                           'same nodes, same |volume|, fresh volume >= 0', problems[:6],
@@ -744,6 +745,7 @@ def check_history(ctx, model_ok):
         if problems:
             n_bad += 1
             first_pos = next(k for k, o in enumerate(h) if o[0] == 'positive')
+        if problems and n_bad <= 8:          # the count of failing histories is in notes['history']
             ctx.violation('impl-violation', case,
                           'every answer = what the current connectivity gives; after a repair all volumes >= 0, '
                           'same ids, node sets and |volume|', problems[:6],
